@@ -23,7 +23,7 @@ CLAIMS.update({
              "the generic Sequence/Choice encode and decode agree branch by branch on head-tag class/number and open/close pairing (path-sensitive), trailing data is refused, "
              "and wire signatures / enumeration numbers have not drifted from the reviewed reference. Octet equality with Annex F and value equality after decode are runtime quantities and are not claimed."
              " Also decided: NameValue's hand-written decoder consumes and stores a present value on every feasible path (a Date becomes a DateTime only before a Time); no arm of the wire coders' class dispatch is shadowed by an earlier arm for a base class (MRO); APCISequence encodes into / decodes from a tag list created in that very call."
-             " Further: each element of a list gets a tag created in its own pass of the encoder loop.",
+             " Further: each element of a list gets a tag created in its own pass of the encoder loop; the generic encoder skips an element only when its value is None (an empty list is sent as an empty group).",
         technique="AST table evaluation (schema/LL(1) analysis) + path analysis of the generic interpreter + frozen wire-signature reference",
         note=_NOTE),
     "C05": dict(
@@ -39,7 +39,7 @@ CLAIMS.update({
              "every confirmed-service handler replies exactly once per normal path (effect summaries), handler names match registered request classes, every error literal is a member of ErrorClass/ErrorCode, "
              "and deferred calls are isolated from each other. Absence of residue after arbitrary garbage sequences is not claimed."
              " Also decided: implicit refusals of the header code tables (a table shorter than the field's value range raises IndexError) count as refusals that ServerSSM.idle must answer."
-             " Further: the capability decision tables of the server transaction (shared with C12.R2): an answer the client cannot take is aborted, never segmented toward a client that accepts no segments.",
+             " Further: the capability decision tables of the server transaction (shared with C12.R2): an answer the client cannot take is aborted, never segmented toward a client that accepts no segments; no test that reads an invoke ID tells 0 from another ID (a request numbered 0 is answered like any other).",
         technique="path enumeration with a small abstract state + effect summaries + registry/enumeration table agreement",
         note=_NOTE),
     "C11": dict(
@@ -118,7 +118,7 @@ CLAIMS.update({
     "C15": dict(
         text="Validate-before-mutate on every path of Property.WriteProperty, the writable name/identifier properties and the commandable mix-in; the refusal table (error class/code per failure) in the property classes, both service handlers and the RPM element builder; "
              "array index value-sets (0 = length, 1..n, IndexError otherwise); sibling normal form of the ReadProperty and ReadPropertyMultiple value conversions and selector polarity; the request's identifier / index / priority reach obj.ReadProperty / obj.WriteProperty; per-specification results are built fresh in every loop pass (definite-assignment and stale-accumulator dataflow); error literals; drift of all 1650 (object type, property) datatypes and conformance codes."
-             " Further: a write is refused as unknown property only when reading the property yields None, not for a false value.",
+             " Further: a write is refused as unknown property only when reading the property yields None, not for a false value; a commanded value reads back (the present value is the lowest-numbered non-null slot whatever its truth value; shared with C17.R2).",
         technique="path rules (validate-before-mutate) + guard value-sets + sibling normal form + frozen property reference",
         note=_NOTE),
     "C16": dict(
